@@ -5,10 +5,13 @@ CFG = {
     "gen": ["translated"],
     "exe": "aqmodel_c11",
     "harness": "c11",
+    "race": True,   # thorough tier builds the harness with -race (concurrent first-use section; HEAD is race-clean)
     "rule": "byte strings: exhaustive over a 17-symbol boundary alphabet up to length 4 (quick) / 5 (thorough), random nested items "
             "with their encodings, 6 mutations each, truncations, trailing bytes, long-form size boundaries; every such input also through the "
             "Stream entry point and DecodeBytes with the error kind against the Go-shaped Stream machine (sdec), and the Stream "
-            "primitives Uint/Bool/Bytes/Raw/Kind on strings up to length 3, all single bytes and mutated encodings (sprim). Typed targets (uint8..64, "
+            "primitives Uint/Bool/Bytes/Raw/Kind on strings up to length 3, all single bytes and mutated encodings (sprim); 120 (quick) / 1200 (thorough, -race) rounds of concurrent "
+            "first use of never-seen struct types (12-36 mixed fields with nested fresh structs behind slices/pointers, every 10th round 300 distinct "
+            "nested types) by 16/32/64 start-gated goroutines. Typed targets (uint8..64, "
             "bool, big, bytes, string, [1]byte, [][1]byte, [20]byte, []uint16, [3]uint16, structs with nil/tail/- tags, byte arrays "
             "[0]..[33], nested struct with pointer/RawValue/interface, rlp:\"nil\" over every element kind, plain pointers of every "
             "element kind incl. nil (encode only), **T nil, Header, Transaction, Log, Receipt, Account, Block): per target 300 (quick) / "
@@ -24,6 +27,9 @@ CFG = {
                 "corr WITH error kinds (Go vs the Go-shaped machine Model.RlpStream, line kind sdec) + proof stream_refines (machine = Model.Rlp.dec)",
             "Stream.Uint/Bool/Bytes/Raw/Kind on a fresh stream": "corr with error kinds (line kind sprim); no refinement theorem yet", "rlp.EncodeToBytes of items": "corr (Go vs Model.Rlp.enc)",
             "rlp.Split": "corr",
+            "rlp/typecache.go cachedTypeInfo/cachedTypeInfo1 (placeholder visible only under the write lock)":
+                "direct Spec judgement: concurrent FIRST use of run-time generated types (reflect.StructOf) by 16-64 goroutines, no panic and every "
+                "result equals the sequential one; thorough tier under -race",
             "typed decoders (decodeUint, decodeBigInt, decodeBool, decodeString/ByteSlice, decodeByteArray, decodeListSlice/Array, "
             "struct decoder incl. tail, makePtrDecoder, makeOptionalPtrDecoder, decodeRawValue, decodeInterface)":
                 "corr (Go vs Model.RlpTyped.decTy through hand-written type descriptors) + direct Spec judgement (round trip, canonicity)",
